@@ -154,7 +154,7 @@ def hexahedron_4pts(P1: Vec, P2: Vec, P3: Vec, P4: Vec, colored=False, volume=Fa
         SurfaceMesh: [description]
     """
     X,Y = P2-P1, P3-P1
-    return hexahedron(P1, P1+X, P1+X+Y, P1+Y, P4, P4+X, P4+X+Y, P4+Y, colored, volume)
+    return hexahedron(P1, P1+X, P1+X+Y, P1+Y, P4, P4+X, P4+X+Y, P4+Y, colored=colored, volume=volume)
 
 def octahedron():
     """Generate a unit octahedron as the dual mesh of the unit hexahedron
